@@ -244,7 +244,7 @@ def c04_dispatch(report, cfg):
             else:
                 cpu = sorted({n for n, _ in bv.support(got) if n.startswith("cpu.")})
                 report.violated("R4.5", ikey, "BLAKE-%d compression through the dispatcher differs from the specification%s"
-                                % (variant, " and depends on CPU detection results %s (backends disagree)" % cpu if cpu else ""))
+                                % (variant, " and depends on CPU detection results %s (backends disagree)" % cpu if cpu else ""), graphs=(got, exp))
         engine_guard(go, report, "R4.5", ikey)
 
 
@@ -297,9 +297,11 @@ def c04_update(report, cfg, rule="R17.1"):
                     buf2, _, _ = by_name(it, v2, t, "buffer")
                     pos2, _, _ = by_name(it, buf2, bt, "pos")
                     if tt.f[0] != e0 or tt.f[1] != e1:
-                        report.violated(rule, ikey, "%s::update: the bit counter after %d block(s) is not the double-word sum t + 8*%d*blocks with carry into the high word" % (name, nfull, bb))
+                        report.violated(rule, ikey, "%s::update: the bit counter after %d block(s) is not the double-word sum t + 8*%d*blocks with carry into the high word" % (name, nfull, bb),
+                                        graphs=(tt.f[0] + tt.f[1], e0 + e1))
                     elif it.to_bits(comp2, ctype) != bv.concat(h):
-                        report.violated(rule, ikey, "%s::update: blocks or per-block counters fed to the compression function differ from the stream's complete blocks" % name)
+                        report.violated(rule, ikey, "%s::update: blocks or per-block counters fed to the compression function differ from the stream's complete blocks" % name,
+                                        graphs=(it.to_bits(comp2, ctype), bv.concat(h)))
                     elif bv.const_value(pos2) != (p + ln) - nfull * bb:
                         report.violated(rule, ikey, "%s::update: wrong number of buffered bytes" % name)
                     else:
